@@ -12,6 +12,7 @@ import (
 	"os/exec"
 	"strconv"
 	"strings"
+	"sync"
 	"time"
 )
 
@@ -34,6 +35,7 @@ type Solver struct {
 	log     *strings.Builder // when non-nil, everything sent is logged (for cross-checking)
 	dead    bool
 	logAll  bool
+	cross   bool
 }
 
 func StartSolver(kind SolverKind, timeoutMs int, logic string) (*Solver, error) {
@@ -85,12 +87,37 @@ func (s *Solver) Close() {
 
 var solverLogFile *os.File
 
+// crossLog, when non-nil, receives the complete command stream of one worker (bounded),
+// so that other solvers can be run on exactly the same queries afterwards.
+type crossLogT struct {
+	f       *os.File
+	queries int
+	max     int
+	mu      sync.Mutex
+}
+
+var crossLog *crossLogT
+
 func (s *Solver) send(text string) {
 	if s.log != nil {
 		s.log.WriteString(text)
 	}
 	if solverLogFile != nil && s.logAll {
 		solverLogFile.WriteString(text)
+	}
+	if s.cross && crossLog != nil {
+		crossLog.mu.Lock()
+		if crossLog.queries < crossLog.max {
+			crossLog.f.WriteString(text)
+			if strings.HasPrefix(text, "(check-sat") {
+				crossLog.queries++
+			}
+		} else if crossLog.queries == crossLog.max && strings.HasPrefix(text, "(pop") {
+			// close the scope of the last complete run
+			crossLog.f.WriteString(text)
+			crossLog.queries++
+		}
+		crossLog.mu.Unlock()
 	}
 	if _, err := io.WriteString(s.in, text); err != nil {
 		s.dead = true
@@ -388,4 +415,75 @@ func parseValue(toks []string, pos *int) (uint64, error) {
 		}
 	}
 	return 0, fmt.Errorf("cannot parse value %v", e)
+}
+
+// crossCheck replays a logged command stream through the three solvers and compares the
+// sequences of sat/unsat verdicts. Returns the number of verdicts compared and a message
+// when they differ.
+func crossCheck(path string, logic string) (int, []string, string) {
+	src, err := os.ReadFile(path)
+	if err != nil {
+		return 0, nil, err.Error()
+	}
+	if logic == "" {
+		logic = "ALL"
+	}
+	body := string(src)
+	run := func(name string, args []string, header string) ([]string, error) {
+		cmd := exec.Command(name, args...)
+		cmd.Stdin = strings.NewReader(header + body)
+		out, err := cmd.Output()
+		var verdicts []string
+		for _, l := range strings.Split(string(out), "\n") {
+			l = strings.TrimSpace(l)
+			if l == "sat" || l == "unsat" || l == "unknown" || strings.HasPrefix(l, "(error") {
+				if strings.HasPrefix(l, "(error") {
+					l = "error"
+				}
+				verdicts = append(verdicts, l)
+			}
+		}
+		if len(verdicts) == 0 && err != nil {
+			return nil, err
+		}
+		return verdicts, nil
+	}
+	zl := ""
+	if logic != "ALL" {
+		zl = "(set-logic " + logic + ")\n"
+	}
+	type res struct {
+		name string
+		v    []string
+	}
+	var rs []res
+	for _, sv := range []struct {
+		name   string
+		args   []string
+		header string
+	}{
+		{"z3", []string{"-in", "-smt2"}, "(set-option :timeout 60000)\n" + zl},
+		{"z3-new", []string{"-in", "-smt2"}, "(set-option :timeout 60000)\n" + zl},
+		{"cvc5", []string{"--incremental", "--produce-models", "--lang=smt2", "--tlimit-per=60000"}, "(set-logic " + logic + ")\n"},
+	} {
+		v, err := run(sv.name, sv.args, sv.header)
+		if err != nil {
+			return 0, nil, sv.name + ": " + err.Error()
+		}
+		rs = append(rs, res{sv.name, v})
+	}
+	names := []string{rs[0].name, rs[1].name, rs[2].name}
+	n := len(rs[0].v)
+	for _, r := range rs[1:] {
+		if len(r.v) != n {
+			return n, names, fmt.Sprintf("%s answered %d queries, %s answered %d", rs[0].name, n, r.name, len(r.v))
+		}
+		for i := range r.v {
+			a, b := rs[0].v[i], r.v[i]
+			if a != b && a != "unknown" && b != "unknown" {
+				return n, names, fmt.Sprintf("query %d: %s says %s, %s says %s", i, rs[0].name, a, r.name, b)
+			}
+		}
+	}
+	return n, names, ""
 }
